@@ -79,10 +79,10 @@ def main():
             tech, text, note = CHECKS[pid]
             checks.append({
                 "property_id": pid,
-                "quick_cmd": f"bin/pverif check {pid} --tier quick",
-                "thorough_cmd": f"bin/pverif check {pid} --tier thorough",
+                "quick_cmd": f"tools/pverif check {pid} --tier quick",
+                "thorough_cmd": f"tools/pverif check {pid} --tier thorough",
                 "evidence_file": f"/verif/evidence/{pid}.json",
-                "replay_cmd_template": f"bin/pverif explain {pid} --from {{path}}",
+                "replay_cmd_template": f"tools/pverif explain {pid} --from {{path}}",
                 "engine": "pverif",
                 "level_claimed": {"category": "other", "text": text, "design_ref": f"DESIGN.md section 4, {pid}"},
                 "level_note": note,
